@@ -463,3 +463,124 @@ def outcome(fn, arg, key_order=None, inst_enc=None):
         return f"(Exn {enc_exn(e, key_order)})", f"{type(e).__name__}", e, None
     term = inst_enc(r) if inst_enc else enc(r)
     return f"(Ok {term})", "ok", None, r
+
+
+# ---------------------------------------------------------------------------
+# discriminated hierarchies (fresh classes per call history: the tag registry is filled lazily,
+# so the FIRST call for a tag takes a different path from later ones)
+# ---------------------------------------------------------------------------
+
+HPOOL = ["int", "str", "date", "Optional[int]", "List[int]", "Inner", "Tuple[int, str]", "Color", "bool", "Dict[str, int]"]
+FLAVOURS = ["config-mixin", "config-codec", "annotated-codec", "annotated-field"]
+
+
+def gen_hierarchy(rng, idx: int) -> dict:
+    flavour = rng.choice(FLAVOURS)
+    field = rng.choice(["type", "kind", "t", "tag_"])
+    nvar = rng.choice([1, 2, 2, 3, 3, 4])
+    classes = []
+    for j in range(nvar):
+        parent = None
+        if classes and rng.random() < 0.25:
+            parent = rng.randrange(len(classes))
+        tag_style = rng.choice(["attr", "attr", "literal"])
+        if parent is not None and rng.random() < 0.3:
+            tag_style = "none"            # inherits the parent's tag: not registered under a tag of its own
+        fields = []
+        for i in range(rng.choice([0, 1, 1, 2, 2, 3])):
+            t = rng.choice(HPOOL)
+            mode = rng.choice(["req", "req", "def"])
+            fields.append({"name": f"v{j}f{i}", "type": t, "mode": mode})
+        classes.append({"suffix": f"V{j}", "parent": parent, "tag": f"tag{j}" if tag_style != "none" else None,
+                        "tag_style": tag_style, "fields": fields, "forbid": rng.random() < 0.2})
+    return {"idx": idx, "flavour": flavour, "field": field, "classes": classes}
+
+
+def hier_source(h: dict, prefix: str) -> str:
+    base = f"{prefix}{h['idx']}"
+    mixin = h["flavour"] != "config-codec" or True
+    lines = ["@dataclass", f"class {base}(DataClassDictMixin):"]
+    if h["flavour"].startswith("config"):
+        lines += ["    class Config(BaseConfig):",
+                  f"        discriminator = Discriminator(field={h['field']!r}, include_subtypes=True)"]
+    else:
+        lines += ["    pass"]
+    for c in h["classes"]:
+        par = base if c["parent"] is None else base + h["classes"][c["parent"]]["suffix"]
+        lines += ["@dataclass", f"class {base}{c['suffix']}({par}):"]
+        body = []
+        if c["tag_style"] == "attr":
+            body.append(f"    {h['field']} = {c['tag']!r}")
+        for f in c["fields"]:
+            ti = POOL_BY_EXPR[f["type"]]
+            args = ["kw_only=True"]
+            if f["mode"] == "def":
+                args.append(("default_factory=" if ti.factory else "default=") + ti.default)
+            body.append(f"    {f['name']}: {f['type']} = field({', '.join(args)})")
+        if c["tag_style"] == "literal":
+            body.append(f"    {h['field']}: Literal[{c['tag']!r}] = field(default={c['tag']!r}, kw_only=True)")
+        if c["forbid"]:
+            body += ["    class Config(BaseConfig):", "        forbid_extra_keys = True"]
+        lines += body or ["    pass"]
+    if h["flavour"] == "annotated-field":
+        lines += ["@dataclass", f"class {base}Holder(DataClassDictMixin):",
+                  f"    v: Annotated[{base}, Discriminator(field={h['field']!r}, include_subtypes=True)]"]
+    return "\n".join(lines) + "\n"
+
+
+def hier_walk(h: dict) -> list[int]:
+    """iter_all_subclasses order: depth first, definition order."""
+    out = []
+
+    def rec(parent):
+        for i, c in enumerate(h["classes"]):
+            if c["parent"] == parent:
+                out.append(i)
+                rec(i)
+    rec(None)
+    return out
+
+
+def hier_all_fields(h: dict, i: int) -> list[dict]:
+    c = h["classes"][i]
+    inherited = hier_all_fields(h, c["parent"]) if c["parent"] is not None else []
+    return inherited + c["fields"]
+
+
+def hier_inputs(rng, h: dict) -> list:
+    """A call history: 2-5 inputs, most of them making the chosen variant's OWN decoding fail,
+    often repeated (first call for a tag vs later calls)."""
+    tagged = [i for i, c in enumerate(h["classes"]) if c["tag"] is not None]
+    out = []
+    for _ in range(rng.choice([2, 3, 3, 4])):
+        if out and rng.random() < 0.3:
+            out.append(copy.deepcopy(rng.choice(out)))
+            continue
+        i = rng.choice(tagged) if tagged else 0
+        c = h["classes"][i]
+        d = {h["field"]: c["tag"] or "tag0"}
+        fields = hier_all_fields(h, i)
+        for f in fields:
+            if f["mode"] == "req" or rng.random() < 0.6:
+                d[f["name"]] = copy.deepcopy(rng.choice(POOL_BY_EXPR[f["type"]].valid))
+        req = [f for f in fields if f["mode"] == "req"]
+        kind = rng.choice(["ok", "missing", "missing", "missing", "junk", "junk", "extra", "unknown-tag", "no-tag",
+                           "nonmapping", "unhashable-tag", "odd-tag"])
+        if kind == "missing" and req:
+            d.pop(rng.choice(req)["name"])
+        elif kind == "junk" and fields:
+            d[rng.choice(fields)["name"]] = copy.deepcopy(rng.choice(JUNK))
+        elif kind == "extra":
+            d[rng.choice(["zzz", "extra", "v9f9"])] = 1
+        elif kind == "unknown-tag":
+            d[h["field"]] = rng.choice(["nope", "", "tag99", "TAG0"])
+        elif kind == "no-tag":
+            d.pop(h["field"])
+        elif kind == "nonmapping":
+            d = rng.choice([[1], "abc", 5, None, [[h["field"], "tag0"]]])
+        elif kind == "unhashable-tag":
+            d[h["field"]] = rng.choice([["tag0"], {"a": 1}])
+        elif kind == "odd-tag":
+            d[h["field"]] = rng.choice([None, 0, 1.5, True])
+        out.append(d)
+    return out
